@@ -183,12 +183,18 @@ PARTS = {
         required=lambda events: [n for n in ["ban", "honest_reply", "discovered"] if n not in
                                  {("ban" if e["obs"]["bans"]["nodes"] else "") for e in events} | {e["op"]["o"] for e in events}
                                  | {("discovered" if any(x["e"] == "Discovered" for x in e["obs"]["ev"]) else "") for e in events}]),
-    "svc_table": _svc_common({"C12.Admit": "C12", "C12.OnlyBySession": "C12", "C12.ReplaceRule": "C12"},
+    "svc_table": _svc_common({"C12.Admit": "C12", "C12.OnlyBySession": "C12", "C12.ReplaceRule": "C12", "C12.Provenance": "C12"},
         spec="MC_Table.tla", mc={"quick": ["MC_Table_ip4.cfg", "MC_Table_ip6.cfg", "MC_Table_dual.cfg"], "thorough": ["MC_Table_ip4.cfg", "MC_Table_ip6.cfg", "MC_Table_dual.cfg"]},
         sim={"quick": [dict(cfg="MC_Table_sim_ip4.cfg", num=40, depth=30), dict(cfg="MC_Table_sim_ip6.cfg", num=25, depth=30), dict(cfg="MC_Table_sim_dual.cfg", num=25, depth=30)],
              "thorough": [dict(cfg="MC_Table_sim_ip4.cfg", num=800, depth=50), dict(cfg="MC_Table_sim_ip6.cfg", num=500, depth=50), dict(cfg="MC_Table_sim_dual.cfg", num=500, depth=50)]},
         fixed_behaviours=[
             [{"o": "reset", "mode": "ip4", "filter": "nomark"}, {"o": "established", "rec": "p1:1:mark", "dir": "Out"}, {"o": "established", "rec": "p2:1:mark", "dir": "In"}],
+            # a node waiting in a pending slot: a NODES response carries another record of it with the same sequence number; the
+            # node is promoted when its time has come (virtual time), with the record its session reported
+            [{"o": "reset", "mode": "ip4"}] + [{"o": "add_enr", "rec": "p%d:1:v4" % k} for k in (2, 3, 4, 5, 6, 8, 9, 10, 12, 13, 14, 15, 16, 21, 22, 23)]
+            + [{"o": "established", "rec": "p24:1:v4", "dir": "Out"}, {"o": "lookup", "target": {"peer": "p24"}},
+               {"o": "response_in", "req": "r2", "body": {"t": "nodes", "total": 1, "recs": ["p24:1:big"]}},
+               {"o": "age", "ms": 61000}, {"o": "poke"}, {"o": "add_enr", "rec": "p2:1:v4"}],
             [{"o": "reset", "mode": "ip4", "filter": "nomark"}, {"o": "add_enr", "rec": "p1:1:v4"}, {"o": "add_enr", "rec": "p2:1:v4"}, {"o": "lookup", "target": {"xor": ["p2", 255]}},
              {"o": "response_in", "req": "@p2", "body": {"t": "nodes", "total": 1, "recs": ["p1:2:v4", "p3:1:v4"]}}, {"o": "response_in", "req": "@p1", "body": {"t": "nodes", "total": 1, "recs": ["p2:1:both", "p2:2:mark"]}}],
         ],
@@ -246,7 +252,7 @@ PARTS = {
         component="handler", spec="MC_Handler.tla",
         mc={"quick": ["MC_Handler_init.cfg"], "thorough": ["MC_Handler_init.cfg", "MC_Handler_tiny.cfg", "MC_Handler_atkq.cfg"]},
         goals_cfg="MC_Handler_goal.cfg",
-        goals=["GoalSecondWay", "GoalNoRecordHs", "GoalRekeyPending", ("GoalRekeyReleasesPending", "MC_Handler_goalenr.cfg"), "GoalEnrlessDone", "GoalTimeoutAll", "GoalBadSigKeepsChallenge", "GoalBadThenGoodHs", "GoalWayAfterReplay", ("GoalSendAfterRotateBack", "MC_Handler_goalrot.cfg"),
+        goals=["GoalSecondWay", "GoalNoRecordHs", "GoalRekeyPending", ("GoalRekeyReleasesPending", "MC_Handler_goalenr.cfg"), "GoalEnrlessDone", "GoalTimeoutAll", "GoalPendingAfterExpiredChallenge", "GoalBadSigKeepsChallenge", "GoalBadThenGoodHs", "GoalWayAfterReplay", ("GoalSendAfterRotateBack", "MC_Handler_goalrot.cfg"),
                ("GoalForgedHs", "MC_Handler_goalatk.cfg"), ("GoalReplayedHs", "MC_Handler_goalatk.cfg")],
         sim={"quick": [dict(cfg="MC_Handler_sim.cfg", num=160, depth=40)], "thorough": [dict(cfg="MC_Handler_sim.cfg", num=1500, depth=60)]},
         append_ops=[{"k": "Quiesce"}],
@@ -266,7 +272,7 @@ PARTS = {
     "kb": dict(
         component="kb", spec="MC_KBuckets.tla",
         mc={"quick": [], "thorough": []},       # per property, see PROPS
-        goals_cfg=None, goals=[("GoalApplyFilterDrop", "MC_KBuckets_goalip.cfg")],
+        goals_cfg=None, goals=[("GoalApplyFilterDrop", "MC_KBuckets_goalip.cfg"), ("GoalPendingVsConnectedHead", "MC_KBuckets_goalhead.cfg")],
         sim={"quick": [dict(cfg="MC_KBuckets_sim.cfg", num=40, depth=40), dict(cfg="MC_KBuckets_simip.cfg", num=30, depth=48)],
              "thorough": [dict(cfg="MC_KBuckets_sim.cfg", num=600, depth=60), dict(cfg="MC_KBuckets_simip.cfg", num=400, depth=60)]},
         drive={"quick": 2500, "thorough": 60000},
